@@ -201,7 +201,7 @@ def _ord_c11(fx, col):
 
 
 prop('C11', 'thread churn is safe and bounded',
-     [O.rule_inuse_fsm, N.rule_reuse_first, T.rule_cooldown_owned, _raii_only, _ord_c11, T.rule_node_some, T.rule_node_stable, P.rule_next_once, T.rule_writers_raii],
+     [O.rule_inuse_fsm, N.rule_reuse_first, T.rule_cooldown_owned, _raii_only, _ord_c11, T.rule_node_some, T.rule_node_stable, P.rule_next_once, T.rule_writers_raii, N.rule_node_bound],
      'Decides: the ownership flag of a node only moves along the legal edges (born USED, USED->COOLDOWN by the owner, COOLDOWN->CHECKING by one checker, CHECKING->UNUSED|COOLDOWN by that checker, UNUSED->USED by a claimer), the release guarded by '
      'in_use == COOLDOWN and active_writers == 0 and performed by compare_exchange (INUSE-FSM); a node is allocated only '
      'after a complete failed attempt to reuse one, is initialised before it is published, and is claimed only by a '
@@ -281,7 +281,7 @@ prop('C14', 'all strategies implement one sequential specification (structural c
      configs=['A', 'T'])
 
 prop('C15', 'pointer-kind laws',
-     [K.rule_refcnt_siblings, K.rule_kind_disjoint, L.rule_bypass],
+     [K.rule_refcnt_siblings, K.rule_kind_disjoint, K.rule_nested_empty, L.rule_bypass],
      'Decides REFCNT-SIBLINGS over every `unsafe impl RefCnt`: into_ptr / from_ptr / as_ptr / inc / dec change the count by '
      '+1 / -1 / 0 / +1 / -1 on every path (0 on the empty-value path), conversions are pure (no clone / upgrade), null '
      'symmetry across into_ptr / as_ptr / from_ptr (same predicate, same polarity, inner conversion only when non-null), '
